@@ -35,7 +35,23 @@ func main() {
 	verif := flag.String("verif", "", "verification directory (default: parent of the binary's directory, else /verif)")
 	list := flag.Bool("list", false, "list implemented properties")
 	explain := flag.String("explain", "", "print a violations file in readable form")
+	inlTest := flag.Bool("inline-selftest", false, "build the inlined view of every repo function and sanity-check it")
+	dumpInl := flag.String("dump-inlined", "", "print the inlined view of the named function (e.g. varlink.Service.Listen)")
 	flag.Parse()
+	if *inlTest || *dumpInl != "" {
+		p := Load(*repo, Config{GOOS: "linux", GOARCH: "amd64"})
+		if *dumpInl != "" {
+			for _, f := range p.Funcs {
+				if funcFullName(f) == *dumpInl {
+					p.Inlined(f, nil).WriteTo(os.Stdout)
+				}
+			}
+			return
+		}
+		n, ni := inlineSelfTest(p)
+		fmt.Printf("inlined views: %d functions, %d with inlined code, all well-formed\n", n, ni)
+		return
+	}
 	if *list {
 		var ids []string
 		for id := range registry {
